@@ -7,6 +7,7 @@ metadata and the value.
 -/
 import XsdataModel.Dict.Encode
 import XsdataModel.Dict.Decode
+import XsdataModel.Bind.FN
 
 namespace Xs.Dict
 open Py Xs.Bind
@@ -48,8 +49,16 @@ def varWild (var : XmlVar) : Bool :=
   var.isWildcard && !var.isAttributes && !var.isElements && !var.isClazzUnion && var.elements.isEmpty
   && !var.tokens && var.clazz.isNone && (wrapperName var.toVarCore).isNone
 
+/-- a tokens field (`xs:list`): one value made of white space separated primitive items -/
+def varTokens (var : XmlVar) : Bool :=
+  var.tokens && !var.listElement && !var.isAttributes && !var.isWildcard && !var.isElements && !var.anyType
+  && var.clazz.isNone && (wrapperName var.toVarCore).isNone
+  && (match var.types with
+      | [.prim t] => t != .qname
+      | _ => false)
+
 /-- the shapes of var the round-trip theorem covers -/
-def varOKj (var : XmlVar) : Bool := varTyped var || varAttrs var || varWild var
+def varOKj (var : XmlVar) : Bool := varTyped var || varAttrs var || varWild var || varTokens var
 
 /-- the key sets by which the decoder recognises generic elements must not be hit by accident:
 a user class emits neither `qname` nor `children`; the generic class `AnyElement` itself emits only
@@ -158,15 +167,23 @@ def wildValueOKj (ok : ClassId → Val → Bool) (var : XmlVar) (x : Val) : Bool
      | .list _ => false
      | _ => wildItemOKj ok x)
 
+/-- the value of a tokens field: a list of primitives of the item type, each of which survives
+`" ".join` / `str.split()` (strings: not empty, no white space) -/
+def tokensValueOKj (e : BEnv) (var : XmlVar) (x : Val) : Bool :=
+  match var.types with
+  | [.prim t] => Xs.Bind.FN.tokensOK e t x
+  | _ => false
+
 /-- the value of an `xs:anyAttribute` map: a mapping with pairwise distinct keys -/
 def attrsValueOKj (x : Val) : Bool :=
   match x with
   | .attrs m => decide ((m.map (·.1)).Nodup)
   | _ => false
 
-def valueOKj (ok : ClassId → Val → Bool) (Γ : Ctx) (fac : Factory) (var : XmlVar) (x : Val) : Bool :=
+def valueOKj (e : BEnv) (ok : ClassId → Val → Bool) (Γ : Ctx) (fac : Factory) (var : XmlVar) (x : Val) : Bool :=
   if var.isAttributes then attrsValueOKj x
   else if var.isWildcard then wildValueOKj ok var x
+  else if var.tokens then tokensValueOKj e var x
   else typedValueOKj ok Γ fac var x
 
 def fixedOK (e : BEnv) (var : XmlVar) (x : Val) : Bool :=
@@ -199,7 +216,7 @@ def valOKj (e : BEnv) (Γ : Ctx) (fac : Factory) : Nat → ClassId → Val → B
          && fs.map (·.1) == ci.fields.map (·.name)
          && (allVars m).all (fun var =>
               match kvGet fs var.name with
-              | some x => valueOKj (valOKj e Γ fac n) Γ fac var x && (var.init || fixedOK e var x)
+              | some x => valueOKj e (valOKj e Γ fac n) Γ fac var x && (var.init || fixedOK e var x)
               | none => false)
          && fs.all (fun kv => ci.fields.all (fun f => f.name != kv.1 ||
               (if f.init then keptBy fac kv.2 || defaultIs f .none else defaultIs f kv.2)))
@@ -242,9 +259,10 @@ def typedValueOKu (ok : ClassId → Val → Bool) (Γ : Ctx) (var : XmlVar) (x :
      | .list _ => false
      | _ => itemOKu ok Γ var x)
 
-def valueOKu (ok : ClassId → Val → Bool) (Γ : Ctx) (var : XmlVar) (x : Val) : Bool :=
+def valueOKu (e : BEnv) (ok : ClassId → Val → Bool) (Γ : Ctx) (var : XmlVar) (x : Val) : Bool :=
   if var.isAttributes then attrsValueOKj x
   else if var.isWildcard then wildValueOKj ok var x
+  else if var.tokens then tokensValueOKj e var x
   else typedValueOKu ok Γ var x
 
 /-- `valOKj` without its per-instance ambiguity condition: only typing -/
@@ -261,7 +279,7 @@ def valOKu (e : BEnv) (Γ : Ctx) (fac : Factory) : Nat → ClassId → Val → B
          && fs.map (·.1) == ci.fields.map (·.name)
          && (allVars m).all (fun var =>
               match kvGet fs var.name with
-              | some x => valueOKu (valOKu e Γ fac n) Γ var x && (var.init || fixedOK e var x)
+              | some x => valueOKu e (valOKu e Γ fac n) Γ var x && (var.init || fixedOK e var x)
               | none => false)
          && fs.all (fun kv => ci.fields.all (fun f => f.name != kv.1 ||
               (if f.init then keptBy fac kv.2 || defaultIs f .none else defaultIs f kv.2)))
